@@ -30,7 +30,7 @@ def run(tier, seed):
         lib = hl7apy.load_library(v)
         names = sorted(lib.SEGMENTS)
         if v not in full:
-            names = sorted(set(rng.sample(names, 12)) | ((set(ex.get(v, [])) | set(newly_bad.get(v, []))) & set(names)))
+            names = sorted(set(rng.sample(names, min(len(names), 12))) | ((set(ex.get(v, [])) | set(newly_bad.get(v, []))) & set(names)))
         for seg in names:
             ref = lib.SEGMENTS[seg]
             rows = ref[1] if gen.is_seq(ref) and len(ref) >= 2 and gen.is_seq(ref[1]) else []
